@@ -2,12 +2,14 @@
 //! mode `pool`: one run of the REAL `ThreadPool` per case line (C20).
 //!
 //! case   `pool <size> <op>…`   ops: `i` instant job · `s<µs>` sleeping job · `b` barrier job
-//!         (returns once `size` barrier jobs wait at the same time) · `p<µs>` pause of the
+//!         (returns once `size` barrier jobs wait at the same time) · `w<k>` long job (returns once
+//!         `k` jobs submitted after it have finished) · `p<µs>` pause of the
 //!         submitting thread · `y` yield of the submitting thread · `D` drop now (default: at the end)
-//! output `size=<n> subm=<m> once=… early=… par=… joined=… drop=… maxconc=<k> :: <trace tokens>`
+//! output `size=<n> subm=<m> once=… early=… par=… indep=… joined=… drop=… maxconc=<k> :: <trace tokens>`
 //!   once   = ok | bad:<j>x<count>,…   executions per submitted job, read after everything settled
 //!   early  = ok | bad:<j>,…           jobs whose closure had not returned when `drop` returned
 //!   par    = ok | na | timeout        every barrier generation met (⇒ `size` jobs ran simultaneously)
+//!   indep  = ok | na | timeout        every long job saw the later jobs finish while it was still running
 //!   joined = ok | bad:<k>             OS threads of the process back to the count before `ThreadPool::new`
 //!   drop   = ret | hang | panic       `hang`: drop did not return within the case deadline
 //!   trace  = hook events of src/threadpool.rs in log order (see Drive/Pool.lean for the tokens)
@@ -88,6 +90,36 @@ impl Rendezvous {
     }
 }
 
+/// which jobs have finished, for the long jobs that wait for later ones
+struct Progress {
+    ended: Mutex<Vec<bool>>,
+    cv: Condvar,
+    deadline: Duration,
+}
+
+impl Progress {
+    fn mark(&self, j: usize) {
+        self.ended.lock().unwrap()[j] = true;
+        self.cv.notify_all();
+    }
+    /// wait until `k` jobs with an index above `j` have finished
+    fn wait_later(&self, j: usize, k: usize) -> bool {
+        let until = Instant::now() + self.deadline;
+        let mut e = self.ended.lock().unwrap();
+        loop {
+            if e[j + 1..].iter().filter(|b| **b).count() >= k {
+                return true;
+            }
+            let now = Instant::now();
+            if now >= until {
+                return false;
+            }
+            let (g, _) = self.cv.wait_timeout(e, until - now).unwrap();
+            e = g;
+        }
+    }
+}
+
 fn os_threads() -> usize {
     std::fs::read_dir("/proc/self/task").map(|d| d.count()).unwrap_or(0)
 }
@@ -97,6 +129,7 @@ enum Op {
     Instant,
     Sleep(u64),
     Barrier,
+    Waiter(usize),
     Pause(u64),
     Yield,
     Drop,
@@ -119,6 +152,7 @@ fn parse(words: &[&str]) -> Option<(usize, Vec<Op>)> {
             'D' if w.len() == 1 => Op::Drop,
             's' => Op::Sleep(w[1..].parse().ok()?),
             'p' => Op::Pause(w[1..].parse().ok()?),
+            'w' => Op::Waiter(w[1..].parse().ok()?),
             _ => return None,
         };
         ops.push(op);
@@ -133,6 +167,8 @@ struct Facts {
     ended_final: Vec<usize>,
     barrier_jobs: usize,
     barrier_timeouts: usize,
+    waiter_jobs: usize,
+    waiter_timeouts: usize,
     threads_left: usize,
     max_conc: usize,
     trace: Vec<String>,
@@ -140,13 +176,16 @@ struct Facts {
 
 /// the whole life of one pool, on the calling thread: create, submit, drop, measure
 fn drive(n: usize, ops: &[Op], barrier_deadline: Duration) -> Facts {
-    let njobs = ops.iter().filter(|o| matches!(o, Op::Instant | Op::Sleep(_) | Op::Barrier)).count();
+    let njobs = ops.iter().filter(|o| matches!(o, Op::Instant | Op::Sleep(_) | Op::Barrier | Op::Waiter(_))).count();
     let started: Arc<Vec<AtomicUsize>> = Arc::new((0..njobs).map(|_| AtomicUsize::new(0)).collect());
     let ended: Arc<Vec<AtomicUsize>> = Arc::new((0..njobs).map(|_| AtomicUsize::new(0)).collect());
     let inflight = Arc::new(AtomicUsize::new(0));
     let max_conc = Arc::new(AtomicUsize::new(0));
     let timeouts = Arc::new(AtomicUsize::new(0));
     let rv = Arc::new(Rendezvous::new(n, barrier_deadline));
+    let wtimeouts = Arc::new(AtomicUsize::new(0));
+    let progress = Arc::new(Progress { ended: Mutex::new(vec![false; njobs]), cv: Condvar::new(), deadline: barrier_deadline });
+    let mut waiter_jobs = 0usize;
     let base_threads = os_threads();
 
     verif_hooks::install_sink();
@@ -169,10 +208,14 @@ fn drive(n: usize, ops: &[Op], barrier_deadline: Duration) -> Facts {
         if let Op::Barrier = kind {
             barrier_jobs += 1;
         }
+        if let Op::Waiter(_) = kind {
+            waiter_jobs += 1;
+        }
         let j = submitted;
         submitted += 1;
         let (started, ended, inflight, max_conc, timeouts, rv) =
             (started.clone(), ended.clone(), inflight.clone(), max_conc.clone(), timeouts.clone(), rv.clone());
+        let (wtimeouts, progress) = (wtimeouts.clone(), progress.clone());
         pool.execute(move || {
             started[j].fetch_add(1, Ordering::SeqCst);
             let now = inflight.fetch_add(1, Ordering::SeqCst) + 1;
@@ -184,10 +227,16 @@ fn drive(n: usize, ops: &[Op], barrier_deadline: Duration) -> Facts {
                         timeouts.fetch_add(1, Ordering::SeqCst);
                     }
                 }
+                Op::Waiter(k) => {
+                    if !progress.wait_later(j, k) {
+                        wtimeouts.fetch_add(1, Ordering::SeqCst);
+                    }
+                }
                 _ => {}
             }
             inflight.fetch_sub(1, Ordering::SeqCst);
             ended[j].fetch_add(1, Ordering::SeqCst);
+            progress.mark(j);
         });
     }
     drop(pool);
@@ -208,6 +257,8 @@ fn drive(n: usize, ops: &[Op], barrier_deadline: Duration) -> Facts {
         ended_final: (0..submitted).map(|j| ended[j].load(Ordering::SeqCst)).collect(),
         barrier_jobs,
         barrier_timeouts: timeouts.load(Ordering::SeqCst),
+        waiter_jobs,
+        waiter_timeouts: wtimeouts.load(Ordering::SeqCst),
         threads_left,
         max_conc: max_conc.load(Ordering::SeqCst),
         trace,
@@ -229,13 +280,21 @@ fn render(n: usize, f: &Facts) -> String {
     } else {
         "timeout".to_string()
     };
+    let indep = if f.waiter_jobs == 0 {
+        "na"
+    } else if f.waiter_timeouts == 0 {
+        "ok"
+    } else {
+        "timeout"
+    };
     format!(
-        "size={} subm={} once={} early={} par={} joined={} drop=ret maxconc={} :: {}",
+        "size={} subm={} once={} early={} par={} indep={} joined={} drop=ret maxconc={} :: {}",
         n,
         f.submitted,
         if once.is_empty() { "ok".to_string() } else { format!("bad:{}", once.join(",")) },
         if early.is_empty() { "ok".to_string() } else { format!("bad:{}", early.join(",")) },
         par,
+        indep,
         if f.threads_left == 0 { "ok".to_string() } else { format!("bad:{}", f.threads_left) },
         f.max_conc,
         f.trace.join(" ")
@@ -282,12 +341,12 @@ pub fn run(args: &[String], input: &mut dyn BufRead, out: &mut dyn Write) {
             Err(mpsc::RecvTimeoutError::Timeout) => {
                 hung = true;
                 let trace = verif_hooks::snapshot();
-                format!("size={} subm=? once=? early=? par=? joined=? drop=hang maxconc=? :: {}", n, trace.join(" "))
+                format!("size={} subm=? once=? early=? par=? indep=? joined=? drop=hang maxconc=? :: {}", n, trace.join(" "))
             }
             Err(mpsc::RecvTimeoutError::Disconnected) => {
                 let _ = h.join();
                 let trace = verif_hooks::take_sink();
-                format!("size={} subm=? once=? early=? par=? joined=? drop=panic maxconc=? :: {}", n, trace.join(" "))
+                format!("size={} subm=? once=? early=? par=? indep=? joined=? drop=panic maxconc=? :: {}", n, trace.join(" "))
             }
         };
         writeln!(out, "{}", res).unwrap();
